@@ -219,7 +219,11 @@ def handleEV (dflt items names probes updates : String) : String :=
         | .formula e => some (e.mapRef tokRef).refs | _ => none).flatten
       let keys := items.map (·.key)
       let flags : List String :=
-        (if refs.any (sheetPartHas ',') then ["D0303"] else [])
+        (if refs.any (sheetPartHas ',') then ["D0303"] else []) ++
+        -- D0304: a name on a cell that is empty when the model is built, filled by a later set_cell_value
+        (if (names.any fun n => match n.target with
+              | .cell a => !(items.any fun i => i.addr == a) && (updates.any fun u => u.saddr == a)
+              | _ => false) then ["D0304"] else [])
       let second : List (String × String) :=
         if updates.isEmpty then [] else
           let wb2 : Out Wb := updates.foldl (fun (o : Out Wb) u =>
